@@ -196,6 +196,14 @@ static void tls_run(const long *p, mvsim_runcfg *cfg, mvsim_runstats *st) {
       for (int i = 0; i < n; i++) { void *r; myth_join(TH[i], &r); MVH_CHECK(r == (void *)(long)(i + 16 * g + 1), "C01-JOIN-VALUE", "join value"); }
     }
     for (int j = 0; j < nused; j++) { MVH_CHECK(myth_key_delete(used[j]) == 0, "C10-DELETE", "delete failed"); }
+    if (with_dtor) {
+      /* the library's key table is static and keeps the destructor of a deleted key in its cell (also across
+         myth_fini/myth_init), and it calls such a destructor with a NULL value when later threads exit: tolerated (see the
+         C11 note), but it made the events of a run depend on the runs before it in the same process.  Re-create the same
+         cells without destructor and delete them again, so that every run starts from a table without destructors. */
+      for (int i = 0; i < span; i++) MVH_CHECK(myth_key_create(&all[i], 0) == 0, "C10-CREATE", "key_create %d of %d failed after all keys were deleted", i, span);
+      for (int i = 0; i < span; i++) MVH_CHECK(myth_key_delete(all[i]) == 0, "C10-DELETE", "delete failed");
+    }
     if (mvsim_probe_count(MYTH_VP_STEAL_HIT)) mvh_run_flags |= 1;
   } else {
     if (n < 2) n = 2;
